@@ -445,7 +445,9 @@ func (g *gen) rule(v0 bool, i int) string {
 	return n + " =\n\t" + g.str()
 }
 
-var pkgs = []string{"p", "q", "p.sub", "p_test", "v0.p", "deep.er.pkg"}
+// package names never lead into the v0 root unless the file is there already: moving a file
+// between roots of different Rego versions is outside the domain (the property does not say what should happen)
+var pkgs = []string{"p", "q", "p.sub", "p_test", "deep.er.pkg"}
 var dirs = []string{"p", "q", "p/sub", "wrong", "v0/p", "v0/x", "", "deep/er/pkg"}
 var bases = []string{"a.rego", "b.rego", "a_test.rego", "a_1.rego"}
 
@@ -458,6 +460,9 @@ func (g *gen) fileSet() map[string]string {
 	for i := 0; i < n; i++ {
 		d := hutil.Choice(g.r, dirs)
 		pk := hutil.Choice(g.r, pkgs)
+		if strings.HasPrefix(d, "v0") {
+			pk = "v0." + pk
+		}
 		if g.r.Below(2) == 0 {
 			// mostly in the right place
 			pk = strings.ReplaceAll(d, "/", ".")
@@ -577,9 +582,9 @@ func main() {
 			}
 		}
 	}
-	n := 90
+	n := 56
 	if tier != "quick" {
-		n = 2500
+		n = 900
 	}
 	g := &gen{rng}
 	for i := 0; i < n; i++ {
